@@ -157,6 +157,18 @@ def write_if_changed(path, text):
     return True
 
 
+def restore_generated(relpath):
+    """Source not recognised by a translator: put back the COMMITTED generated file (which corresponds to /repo
+    at commit time), so that a file generated from some other tree by an earlier run cannot linger."""
+    try:
+        p = subprocess.run(['git', '-C', VERIF, 'show', 'HEAD:' + relpath], stdout=subprocess.PIPE, stderr=subprocess.DEVNULL, text=True)
+        if p.returncode == 0 and p.stdout.strip():
+            return write_if_changed(os.path.join(VERIF, relpath), p.stdout)
+    except OSError:
+        pass
+    return False
+
+
 def coq_project_refresh():
     """(Re)write _CoqProject and Makefile when the set of .v files changed."""
     vs = []
